@@ -308,7 +308,10 @@ func (r fxRules) yamlText() string {
 		}
 		var rules []any
 		for _, ru := range d.Rules {
-			m := map[string]any{"Name": ru.Name}
+			m := map[string]any{}
+			if ru.Name != "" { // rule names are optional
+				m["Name"] = ru.Name
+			}
 			if len(ru.Conds) > 0 {
 				var cs []any
 				for _, c := range ru.Conds {
